@@ -131,9 +131,14 @@ class OsProxy:
     def close(self, *a: Any, **k: Any) -> Any:
         return self._sys.event("os.close", lambda: _os.close(*a, **k))
 
-    def stat(self, *a: Any, **k: Any) -> Any:
+    def lstat(self, *a: Any, **k: Any) -> Any:
+        # JournalFileSymlinkLock watches the lock file itself since the repair of F31 (os.lstat); same event, same
+        # virtual mtime as `stat`
+        return self.stat(*a, _call=_os.lstat, **k)
+
+    def stat(self, *a: Any, _call: Any = None, **k: Any) -> Any:
         def do() -> Any:
-            r = _os.stat(*a, **k)
+            r = (_call or _os.stat)(*a, **k)
             if a and str(a[0]).endswith(".lock"):
                 # real mtimes of lock files created microseconds apart can be equal (coarse kernel clock);
                 # give every lock file a distinct virtual mtime = serial number of its creation
